@@ -1,6 +1,6 @@
 (** * C02 -- Optimisation never changes observable behaviour. *)
 From Coq Require Import String ZArith List Bool Arith.
-From NSL Require Import Model.PyNum Model.IR Model.VM Model.WfIR Model.Opt Proofs.WfIRProofs.
+From NSL Require Import Model.PyNum Model.IR Model.VM Model.WfIR Model.Opt Proofs.WfIRProofs Proofs.OptProofs.
 From NSLDyn Require Gen_Shapes.
 Import ListNotations.
 
@@ -34,6 +34,20 @@ Example C02_chain_example :
                   {| i_ref := 5; i_ty := ITInt false; i_body := ILoad SLocal (VName "y") |};
                   {| i_ref := 6; i_ty := ITInt false; i_body := IRet (Some 5) |} ] [] = [(3, 1); (5, 1)].
 Proof. reflexivity. Qed.
+
+(** Two value-level facts behind the equivalence, for every program:
+    folding the cast of a constant yields exactly the value the VM's CAST computes from that constant (and folding
+    refuses only where the VM's CAST fails); a load that directly follows a store to the same variable -- local,
+    argument or global -- delivers the stored value, so rewiring its users to the stored value preserves what they read. *)
+Theorem C02_constant_folding_is_vm_cast : forall t c v, fold_cast t c = OOk v -> cast_scalar t (const_val c) = Ok (const_val v).
+Proof. exact fold_cast_is_vm_cast. Qed.
+Theorem C02_folding_refuses_only_where_vm_fails : forall t c, fold_cast t c = ORaise -> forall v, cast_scalar t (const_val c) <> Ok v.
+Proof. exact fold_cast_raises_only_where_vm_fails. Qed.
+Theorem C02_load_after_store_delivers_stored : forall F pc fr st sc v src w iS iL pc1 fr1 st1,
+  i_body iS = IStore sc v src -> i_body iL = ILoad sc v -> rget fr src = Ok w ->
+  step F pc fr st iS = StNext pc1 fr1 st1 ->
+  exists fr2, step F pc1 fr1 st1 iL = StNext (S pc1) fr2 st1 /\ rget fr2 (i_ref iL) = Ok w.
+Proof. exact load_after_store_delivers_stored. Qed.
 
 Eval compute in "ASSUMPTIONS C02_optimised_wellformed_never_undefined_partial"%string. Print Assumptions C02_optimised_wellformed_never_undefined_partial.
 Eval compute in "END"%string.
